@@ -19,6 +19,11 @@ func main() {
 	}
 	r := hx.NewRand(seed)
 	ok, bad := 0, 0
+	drv, derr := hx.StartDriver("/verif/lean/.lake/build/bin/pvdriver")
+	if derr != nil {
+		fmt.Println("no driver", derr)
+	}
+	specOK, specBad := 0, 0
 	for k := 0; k < 200; k++ {
 		rr := r.Fork()
 		o := fed.DefaultGen()
@@ -59,6 +64,19 @@ func main() {
 			opd := doc.Operations[0]
 			ev := &fed.Eval{Schema: mr.Schema, Data: data.Clone(), Vars: op.Variables}
 			want := ev.Execute(opd)
+			if drv != nil {
+				res, err := drv.Call(map[string]interface{}{"op": "spec.eval", "schema": hx.SchemaToJSON(mr.Schema), "data": data.ToJSON(), "operation": hx.OpToJSON(opd), "variables": op.Variables})
+				if err != nil {
+					fmt.Println("driver:", err)
+				} else if hx.Canon(res["data"]) == hx.Canon(want) {
+					specOK++
+				} else {
+					specBad++
+					if specBad < 4 {
+						fmt.Println("SPEC DIFF\n", op.Query, hx.Canon(op.Variables), "\n go  ", hx.Canon(want), "\n lean", hx.Canon(res["data"]))
+					}
+				}
+			}
 			f.ResetLogs()
 			resp := fed.Do(gw, op.Query, op.Variables, op.OpName)
 			if hx.Canon(resp.Data) == hx.Canon(want) && len(resp.Errors) == 0 {
@@ -79,5 +97,5 @@ func main() {
 			}
 		}
 	}
-	fmt.Println("ok", ok, "bad", bad)
+	fmt.Println("ok", ok, "bad", bad, "spec-agree", specOK, "spec-differ", specBad)
 }
